@@ -299,6 +299,29 @@ def r11_r12_connect(repo, sink):
         sink.check(why is None, "R11", f"connect:{name}", f,
                    ok="status is CONNECTED iff all declared exchanges are done, CONNECTING iff something new was exchanged, else CONNECTING_IDLE",
                    bad=why or "")
+    r11_initial_pull(repo, sink)
+    sink.note("R11.connect_calls_interpreted", n_calls)
+    sink.floor("R11", "scripted connect scenarios", len(_scenarios()), 20)
+    # exhaustiveness: the completeness test mentions every pending-state dictionary of the constructor
+    init = repo.resolve(c, "__init__")
+    state = set()
+    for n in fn_walk(init.node):
+        if isinstance(n, ast.Assign) and isinstance(n.value, ast.DictComp):
+            v = n.value.value
+            if (isinstance(v, ast.Constant) and v.value in (None, False)) or (isinstance(v, ast.Call) and call_name(v) == "has_info"):
+                state |= {self_attr(t) for t in n.targets if self_attr(t)}
+    sink.note("R11.pending_state", sorted(state))
+    sink.floor("R11", "pending-state dictionaries", len(state), 5, init)
+
+
+def r11_initial_pull(repo, sink):
+    """The initial pull of the connect helper asks for the composition start time (own rule: it also belongs to C01)."""
+    if id(sink) in getattr(repo, "_r11ip_done", set()):
+        return
+    repo.__dict__.setdefault("_r11ip_done", set()).add(id(sink))
+    c = repo.cls("ConnectHelper")
+    f = repo.resolve(c, "connect", "method")
+    start, later = Sym("t0"), Sym("t1")
     # the initial pull asks for the composition start time (that is what producers publish for,
     # next to their own start); without time components it falls back to the exchanged info's time
     for nm, st_arg, want in (("composition-start", start, start), ("no-time-components", None, later)):
@@ -319,18 +342,6 @@ def r11_r12_connect(repo, sink):
                    ok="initial pull asks for the composition start time (or the info time when there is none)",
                    bad=why + ": producers publish their initial data for the composition start and their own start, "
                              "a consumer starting later must still ask for the composition start")
-    sink.note("R11.connect_calls_interpreted", n_calls)
-    sink.floor("R11", "scripted connect scenarios", len(_scenarios()), 20)
-    # exhaustiveness: the completeness test mentions every pending-state dictionary of the constructor
-    init = repo.resolve(c, "__init__")
-    state = set()
-    for n in fn_walk(init.node):
-        if isinstance(n, ast.Assign) and isinstance(n.value, ast.DictComp):
-            v = n.value.value
-            if (isinstance(v, ast.Constant) and v.value in (None, False)) or (isinstance(v, ast.Call) and call_name(v) == "has_info"):
-                state |= {self_attr(t) for t in n.targets if self_attr(t)}
-    sink.note("R11.pending_state", sorted(state))
-    sink.floor("R11", "pending-state dictionaries", len(state), 5, init)
 
 
 def r14_doublepush(repo, sink):
